@@ -80,7 +80,7 @@ prop('C01',
 prop('C02',
      [iface.r02_1, iface.r02_7, iface.r02_6, wrappers.r02_2, forward.r02_8, CUR_HIER,
       layout.r02_3, layout.r02_4, layout.r07_1, popmodels.r05_2,
-      layout.r05_3, layout.r02_9],
+      layout.r05_3, layout.r05_6, layout.r02_9],
      undecided=['numerical equality of the score with the hand-assembled sum',
                 'covariate values reaching the right individual at run time'],
      assumptions=COMMON_ASSUME,
@@ -137,7 +137,7 @@ prop('C03',
                  'sensitivities is that score.')
 
 prop('C05',
-     [ndim.r05_1, popmodels.r05_2, popmodels.r05_5, cursors.r05_4, layout.r05_3,
+     [ndim.r05_1, popmodels.r05_2, popmodels.r05_5, cursors.r05_4, layout.r05_3, layout.r05_6,
       reduced.r08_2],
      undecided=['numerical values at boundary points', '-inf vs nan'],
      assumptions=TERM_ASSUME,
@@ -208,8 +208,8 @@ prop('C08',
                  'of the free set re-requests enabled sensitivities.')
 
 prop('C09',
-     [sbml.r09_1, sbml.r09_2, sbml.r09_3, sbml.r09_4, sbml.r09_5,
-      switch.r08_7, reduced.r08_1, mech.r11_1, mech.r11_5],
+     [sbml.r09_1, sbml.r09_2, sbml.r09_3, sbml.r09_4, sbml.r09_5, sbml.r09_6,
+      switch.r08_7, reduced.r08_1, mech.r11_1, mech.r11_5, mech.r11_7],
      undecided=['the ODE solution and its derivatives (myokit / sundials)',
                 'myokit\'s SBML import beyond the SBML level-3 reading of '
                 'species in kinetic laws'],
@@ -254,7 +254,7 @@ prop('C10',
                  'protocol row by row.')
 
 prop('C11',
-     [mech.r11_1, mech.r11_2, mech.r11_5, copies.r11_3, copies.r11_6,
+     [mech.r11_1, mech.r11_2, mech.r11_5, mech.r11_7, sbml.r09_6, copies.r11_3, copies.r11_6,
       switch.r08_7],
      undecided=['equality of simulation results (ODE solver)'],
      assumptions=COMMON_ASSUME,
@@ -407,7 +407,7 @@ prop('C18',
 
 prop('C19',
      [copies.r19_3, copies.r11_3, copies.r11_6, switch.r03_5, mech.r11_1,
-      mech.r11_5, purity.r19_1, purity.r19_2, plots.r20_2, switch.r08_7,
+      mech.r11_5, purity.r19_1, purity.r19_2, plots.r20_2, plots.r20_4, switch.r08_7,
       caches.r08_5],
      undecided=['multi-process behaviour (pickling, fork)',
                 'exception paths'],
@@ -424,7 +424,7 @@ prop('C19',
                  'consistent sensitivity flag.')
 
 prop('C20',
-     [plots.r20_1, plots.r20_2, plots.r20_3],
+     [plots.r20_1, plots.r20_2, plots.r20_3, plots.r20_4],
      undecided=['rank / percentile arithmetic: that the limits enclose at '
                 'least the requested fraction and that bands are nested',
                 'plotly rendering'],
